@@ -32,3 +32,14 @@ mod mocked;
 pub(crate) use real::*;
 #[cfg(loom)]
 pub(crate) use mocked::*;
+
+// Verification builds (`--cfg excsn_fibre_verif`): explicit imports shadow the
+// `real::*` glob above, routing every primitive through perturbation points.
+#[cfg(all(not(loom), excsn_fibre_verif))]
+mod instrumented;
+#[cfg(all(not(loom), excsn_fibre_verif))]
+pub(crate) use instrumented::{
+  fence, hint, thread, AtomicBool, AtomicPtr, AtomicU8, AtomicU32, AtomicU64, AtomicUsize, Mutex,
+};
+#[cfg(all(not(loom), excsn_fibre_verif))]
+pub use instrumented::verif;
